@@ -244,6 +244,11 @@ impl<'a> Printer<'a> {
             s.push('{');
             match &c.qty {
                 Some(q) => s.push_str(&self.qty(q)),
+                // empty braces may hold blanks and comments
+                None if !self.plain && self.tape.chance(1, 10) => {
+                    self.f.comments += 1;
+                    s.push_str(["[- to taste -]", " [- 1%tsp -] ", " [-é-]"][self.tape.pick(3) as usize]);
+                }
                 None => s.push_str(&self.blanks()),
             }
             s.push('}');
